@@ -233,6 +233,7 @@ func c05up4(c *ctx) {
 		w.assoc(0)
 		if rep < 2 {
 			w.tunnelNamedWhileBuffering([]string{"release", "del"}[rep])
+			w.uplinkFarNamesTunnel([]string{"release", "del"}[rep])
 		}
 		for cyc := 0; cyc < c.pick(10, 60); cyc++ {
 			var mine []*hsess
